@@ -3,6 +3,8 @@
 #include <Arduino.h>
 #define ARDUINOJSON_ENABLE_PROGMEM 1
 #define ARDUINOJSON_ENABLE_ARDUINO_STRING 1
+#define ARDUINOJSON_ENABLE_ARDUINO_STREAM 1
+#define ARDUINOJSON_ENABLE_ARDUINO_PRINT 1
 #include "common.hpp"
 #include "typed_obs.hpp"
 #include <deque>
@@ -31,7 +33,19 @@ static const char* linkedBuf(Ctx& c, const std::string& s) {
   return c.pool.back().c_str();
 }
 // kind 7 = mixed: every operation takes its string operands through a kind chosen from the operation counter
-static int effKind(const Ctx& c) { return c.kind == 7 ? int(c.curAlias % 7) : c.kind; }
+static int effKind(const Ctx& c) { if (c.kind != 7) return c.kind; int k = int(c.curAlias % 8); return k == 7 ? 8 : k; }
+// kind 8: a Printable whose printTo() writes the text in two pieces (one byte, then a block)
+struct PrintableText : Printable {
+  std::string s;
+  size_t printTo(Print& p) const override {
+    size_t n = 0;
+    if (!s.empty()) n += p.write((uint8_t)s[0]);
+    if (s.size() > 1) n += p.write((const uint8_t*)s.data() + 1, s.size() - 1);
+    return n;
+  }
+};
+// a string holding a NUL can only be given through a kind that carries its length
+static int kindFor(const Ctx& c, bool hasNul) { int k = effKind(c); return (hasNul && k != 3 && k != 6 && k != 8) ? 0 : k; }
 // store string s (value) into variant v using the configured source kind; returns set()'s result
 template <class V> static bool setString(Ctx& c, V&& v, const std::string& s) {
   bool hasNul = s.find('\0') != std::string::npos;
@@ -41,7 +55,8 @@ template <class V> static bool setString(Ctx& c, V&& v, const std::string& s) {
     if (effKind(c) == 1) { std::string tmp = s; v.set(tmp); }
     else { v.set(linkedBuf(c, s)); }
   }
-  switch (hasNul ? 0 : effKind(c)) {
+  switch (kindFor(c, hasNul)) {
+    case 8: { PrintableText pt; pt.s = s; bool r = v.set(pt); pt.s.assign(pt.s.size(), 'Z'); return r; }
     case 1: return v.set(linkedBuf(c, s));                  // const char*: linked
     case 2: { std::vector<char> buf(s.begin(), s.end()); buf.push_back(0); bool r = v.set(buf.data());   // char*: copied
               std::fill(buf.begin(), buf.end(), 'Z'); return r; }
@@ -71,7 +86,8 @@ template <class F> static auto withKey(Ctx& c, const std::string& k, F f) {
       return f(std::string_view(a, k.size()));
     }
   }
-  switch (hasNul ? 0 : effKind(c)) {
+  switch (kindFor(c, hasNul)) {
+    case 5: { c.pool.push_back(k); return f(reinterpret_cast<const __FlashStringHelper*>(convertPtrToFlash(c.pool.back().c_str()))); }
     case 1: return f(linkedBuf(c, k));
     case 2: { c.pool2.emplace_back(k.begin(), k.end()); c.pool2.back().push_back(0); std::vector<char> tmp = c.pool2.back();
               auto r = f((char*)tmp.data()); return r; }
@@ -92,7 +108,20 @@ template <class V> static bool setScalar(Ctx& c, V&& v, const std::string& d) {
   if (d[0] == 'F') { uint32_t b = d == "Fnan" ? 0x7fc00000u : (uint32_t)std::stoul(d.substr(1), nullptr, 16); float f; memcpy(&f, &b, 4); return v.set(f); }
   if (d[0] == 'D') { uint64_t b = d == "Dnan" ? 0x7ff8000000000000ull : (uint64_t)std::stoull(d.substr(1), nullptr, 16); double f; memcpy(&f, &b, 8); return v.set(f); }
   if (d[0] == 's') return setString(c, v, unhex(d.substr(1)));
-  if (d[0] == 'r') return v.set(serialized(unhex(d.substr(1))));
+  if (d[0] == 'r') {
+    // a raw value through the different overloads of serialized()
+    std::string raw = unhex(d.substr(1));
+    std::vector<char> buf(raw.begin(), raw.end()); buf.push_back(0);
+    bool r;
+    switch (c.curAlias % 3) {
+      case 1: r = v.set(serialized(buf.data(), raw.size())); break;                                   // char* + size
+      case 2: if (raw.find('\0') == std::string::npos) { r = v.set(serialized((const char*)buf.data())); break; }   // zero-terminated
+              // fall through
+      default: r = v.set(serialized(raw));
+    }
+    std::fill(buf.begin(), buf.end(), 'Z');
+    return r;
+  }
   return false;
 }
 
